@@ -385,6 +385,7 @@ func (e *Exec) resetPath() {
 	e.timerOf = map[*Cell]*timerState{}
 	e.pools = nil
 	e.conds = nil
+	e.globalRnd = nil
 	e.utf8ok = map[*Term]*Term{}
 	e.atomVCs = nil
 	e.probes = nil
